@@ -13,6 +13,14 @@
    (delete: a removed grant leaves the database, the nodes above it go with it once they have no other subordinate),
    server/authz (AuthzHandling.__call__).
 
+   The documented session parameter `remove_inactive_token` (session_params; EndpointContext.set_remember_token ->
+   SessionManager.remove_inactive_token -> every Grant made by add_grant) is the configuration flag c_remove_inactive:
+   with it on, EVERY call of Grant.revoke_token - whatever its arguments - rebuilds grant.issued_token without the tokens
+   whose `revoked` is set at that moment (they are handed to remember_token, if there is one, and are "gone": t_gone).
+   A gone token still decrypts / verifies and still names its session (get_session_info_by_token does not look at
+   issued_token), but Grant.get_token and SessionManager.find_token no longer find it: what each endpoint does then is
+   transcribed at every operation below.  Tokens that are merely used up or expired are never dropped by the library.
+
    Hand-written, executable; tied to the code by harness/sess.py + the drivers of C02/C03/C05
    (the model's outcome of every operation and the whole session state are compared with the real
    provider).  Token values are abstract identifiers (minting order); the byte-level token formats
@@ -30,7 +38,8 @@ Definition cls_in (c : tcls) (l : list tcls) : bool := existsb (tcls_eqb c) l.
 Record token := mkTok {
   t_grant : nat;                       (* index of the grant whose issued_token list holds it *)
   t_cls : tcls; t_based : option nat; t_used : Z; t_max : option Z;
-  t_mints : option (list tcls); t_revoked : bool; t_exp : Z; t_scope : list pystr }.
+  t_mints : option (list tcls); t_revoked : bool; t_exp : Z; t_scope : list pystr;
+  t_gone : bool }.                     (* dropped from grant.issued_token (remove_inactive_token): only "remembered" *)
 
 Record grant := mkGrant {
   g_user : pystr; g_client : pystr; g_revoked : bool; g_exp : Z; g_scope : list pystr;
@@ -59,7 +68,8 @@ Record cfg := mkCfg {
   c_idtok_exp : Z;
   c_grant_exp : Z; c_authn_valid : Z;
   c_revoke_refresh_on_issue : bool;
-  c_shared_key : bool }.                 (* the opaque token handlers share one key *)
+  c_shared_key : bool;                   (* the opaque token handlers share one key *)
+  c_remove_inactive : bool }.            (* session_params.remove_inactive_token *)
 
 Definition init : st := mkSt 1700000000 [] [] [].
 
@@ -79,10 +89,10 @@ Definition find_tok (id : nat) (s : st) : option (grant * token) :=
   | Some t => match nth_error (grants s) (t_grant t) with Some g => Some (g, t) | None => None end
   | None => None
   end.
-(* Grant.get_token: only tokens of that grant *)
+(* Grant.get_token: only tokens of that grant that are (still) in its issued_token list *)
 Definition find_in (gi : nat) (id : nat) (ts : list token) : option token :=
   match nth_error ts id with
-  | Some t => if Nat.eqb (t_grant t) gi then Some t else None
+  | Some t => if Nat.eqb (t_grant t) gi && negb (t_gone t) then Some t else None
   | None => None
   end.
 
@@ -100,9 +110,11 @@ Definition map_toks (f : token -> token) (s : st) : st :=
   mkSt (now s) (grants s) (List.map f (toks s)) (parsed s).
 
 Definition add_used (d : Z) (t : token) : token :=
-  mkTok (t_grant t) (t_cls t) (t_based t) (t_used t + d) (t_max t) (t_mints t) (t_revoked t) (t_exp t) (t_scope t).
+  mkTok (t_grant t) (t_cls t) (t_based t) (t_used t + d) (t_max t) (t_mints t) (t_revoked t) (t_exp t) (t_scope t) (t_gone t).
 Definition revoke_t (t : token) : token :=
-  mkTok (t_grant t) (t_cls t) (t_based t) (t_used t) (t_max t) (t_mints t) true (t_exp t) (t_scope t).
+  mkTok (t_grant t) (t_cls t) (t_based t) (t_used t) (t_max t) (t_mints t) true (t_exp t) (t_scope t) (t_gone t).
+Definition gone_t (t : token) : token :=
+  mkTok (t_grant t) (t_cls t) (t_based t) (t_used t) (t_max t) (t_mints t) (t_revoked t) (t_exp t) (t_scope t) true.
 Definition revoke_g (g : grant) : grant :=      (* Grant.revoke() *)
   mkGrant (g_user g) (g_client g) true (g_exp g) (g_scope g) (g_areq_scope g) (g_redirect g) (g_valid_until g) (g_removed g).
 Definition remove_g (g : grant) : grant :=      (* Database.delete of the leaf *)
@@ -110,6 +122,12 @@ Definition remove_g (g : grant) : grant :=      (* Database.delete of the leaf *
 (* _revoke_tree on a grant: Grant.revoke() + Grant.revoke_token() (every issued token) *)
 Definition revoke_grant_at (gi : nat) (s : st) : st :=
   map_toks (fun t => if Nat.eqb (t_grant t) gi then revoke_t t else t) (upd_grant gi revoke_g s).
+
+(* The tail of Grant.revoke_token when remove_inactive_token is set: `remain` keeps the tokens that are not revoked, the
+   others leave issued_token.  p: the grants whose revoke_token ran (one grant, or every grant below a revoked node). *)
+Definition sweep_p (c : cfg) (p : nat -> bool) (s : st) : st :=
+  if c_remove_inactive c then map_toks (fun t => if p (t_grant t) && t_revoked t then gone_t t else t) s else s.
+Definition sweep (c : cfg) (gi : nat) (s : st) : st := sweep_p c (Nat.eqb gi) s.
 
 (* ---- Grant.find_scope ---- *)
 Fixpoint find_scope (fuel : nat) (ts : list token) (gi : nat) (gscope : list pystr) (based : option nat) : list pystr :=
@@ -147,6 +165,40 @@ Fixpoint derived_from (fuel : nat) (ts : list token) (t : token) (v : nat) : boo
 Definition revoke_derived (gi : nat) (v : nat) (s : st) : st :=
   map_toks (fun t => if Nat.eqb (t_grant t) gi && derived_from (S (length (toks s))) (toks s) t v then revoke_t t else t) s.
 
+(* ---- the same call when remove_inactive_token is set ----
+   Grant.revoke_token(based_on=v, recursive=True) is a depth-first walk in which every call iterates over the issued_token
+   list AS IT IS WHEN THAT CALL STARTS and, when it ends, replaces grant.issued_token by the not-revoked members of the
+   list it iterated over.  The first call that ends therefore takes every token that is revoked by then off the list -
+   also tokens that had been revoked earlier by other means (token.revoke() of the revocation endpoint or of
+   revoke_refresh_on_issue, a non-recursive SessionManager.revoke_token) - and the calls that start afterwards no longer
+   see them: what was minted from such a token is then not reached by the walk. *)
+Fixpoint listed_from (i gi : nat) (ts : list token) : list nat :=
+  match ts with
+  | [] => []
+  | t :: r => if Nat.eqb (t_grant t) gi && negb (t_gone t) then i :: listed_from (S i) gi r else listed_from (S i) gi r
+  end.
+Definition listed_ids (gi : nat) (ts : list token) : list nat := listed_from 0 gi ts.
+Definition sweep_toks (gi : nat) (ts : list token) : list token :=
+  List.map (fun t => if Nat.eqb (t_grant t) gi && t_revoked t then gone_t t else t) ts.
+Definition based_is (t : token) (v : nat) : bool := match t_based t with Some b => Nat.eqb b v | None => false end.
+Fixpoint walk (fuel : nat) (gi v : nat) (ts : list token) : list token :=
+  match fuel with
+  | O => ts
+  | S f =>
+      sweep_toks gi
+        (fold_left (fun ts' id => match nth_error ts' id with
+                                  | Some t => if based_is t v then walk f gi id (upd_nth id revoke_t ts') else ts'
+                                  | None => ts'
+                                  end)
+                   (listed_ids gi ts) ts)
+  end.
+Definition walk_derived (gi v : nat) (s : st) : st :=
+  mkSt (now s) (grants s) (walk (S (length (toks s))) gi v (toks s)) (parsed s).
+(* Grant.revoke_token(based_on=v) resp. Grant.revoke_token(value=v) (v itself is revoked by the caller) under the
+   configuration c *)
+Definition cascade (c : cfg) (gi v : nat) (s : st) : st :=
+  if c_remove_inactive c then walk_derived gi v s else revoke_derived gi v s.
+
 (* ---- Grant.mint_token (+ the expires_at set by the caller) ---- *)
 Definition e_mint_refused : exc := Refused 1.      (* MintingNotAllowed *)
 Definition mint (s : st) (gi : nat) (cls : tcls) (based : option nat) (scope : option (list pystr))
@@ -173,7 +225,7 @@ Definition mint (s : st) (gi : nat) (cls : tcls) (based : option nat) (scope : o
                         | Code, None => Some [Access; Refresh; IdTok]
                         | Refresh, None => Some [Access; Refresh]
                         | _, m => m end)
-                       false (if exp_in =? 0 then 0 else now s + exp_in) sc in
+                       false (if exp_in =? 0 then 0 else now s + exp_in) sc false in
         let ts1 := match based with Some b => upd_nth b (add_used 1) (toks s) | None => toks s end in
         Ok (mkSt (now s) (grants s) (ts1 ++ [t]) (parsed s), id)
   end.
@@ -351,9 +403,13 @@ Definition do_token_parse (c : cfg) (s : st) (cl : pystr) (r : tokref) (redir : 
   | RUnknown => (push_parsed s (PErr EInvalidGrant), OErr EInvalidGrant)
   | RWrongClass | RTooOld | RCrash => (s, OExc)   (* WrongTokenClass propagates out of parse_request; nothing is stored *)
   | RTok id g t =>
-      if c_oidc c && negb (t_used t =? 0) then
+      if t_gone t then
+        (* the grant no longer lists the code: grant.get_token -> None, "Wrong token type" (both flavours); the OIDC helper
+           does not reach its `if code.used` branch *)
+        (push_parsed s (PErr EInvalidRequest), OErr EInvalidRequest)
+      else if c_oidc c && negb (t_used t =? 0) then
         (* a used code: invalidate everything minted from it *)
-        let s1 := revoke_derived (t_grant t) id s in
+        let s1 := cascade c (t_grant t) id s in
         (push_parsed s1 (PErr EInvalidGrant), OErr EInvalidGrant)
       else if negb (tok_active (now s) t) then
         let e := if c_oidc c then EInvalidGrant else EInvalidRequest in
@@ -366,7 +422,8 @@ Definition do_refresh_parse (c : cfg) (s : st) (cl : pystr) (r : tokref) (sc : o
   | RUnknown => (push_parsed s (PErr EInvalidGrant), OErr EInvalidGrant)
   | RWrongClass | RTooOld | RCrash => (s, OExc)
   | RTok id g t =>
-      if negb (tok_active (now s) t) then (push_parsed s (PErr EInvalidRequest), OErr EInvalidRequest)
+      if t_gone t then (push_parsed s (PErr EInvalidRequest), OErr EInvalidRequest)      (* get_token -> None: "Wrong token type" *)
+      else if negb (tok_active (now s) t) then (push_parsed s (PErr EInvalidRequest), OErr EInvalidRequest)
       else match sc with
            | Some rs => if subset rs (fscope s (t_grant t) g (t_based t)) then (push_parsed s (PRefresh cl id sc), OOk)
                         else (push_parsed s (PErr EInvalidRequest), OErr EInvalidRequest)
@@ -383,6 +440,7 @@ Definition do_code_process (c : cfg) (s : st) (cl : pystr) (code : nat) (redir :
       let gi := t_grant t in
       if g_removed g then (s, OExc)                              (* InvalidBranchID: the session was removed meanwhile *)
       else if negb (str_eqb (g_client g) cl) then (s, OErr EInvalidGrant)
+      else if t_gone t then (s, OExc)                            (* _based_on = None; `_based_on.usage_rules` raises *)
       else match redir with
            | None => (s, OExc)                                   (* req["redirect_uri"] -> KeyError *)
            | Some r =>
@@ -453,6 +511,15 @@ Definition do_refresh_process (c : cfg) (s : st) (cl : pystr) (tok : nat) (rsc :
       let gi := t_grant t in
       if g_removed g then (s, OExc)
       else if negb (str_eqb (g_client g) cl) then (s, OErr EInvalidGrant)
+      else if t_gone t then
+        (* the refresh token left the grant between parse and process: token = None.  OIDC: `token.based_on` raises at
+           once.  OAuth2: find_scope(None) is the grant's scope, an access token WITHOUT based_on is minted (and stays in the
+           grant), then `token.usage_rules` raises - the new token is never returned *)
+        if c_oidc c then (s, OExc)
+        else match mint s gi Access None (Some (match rsc with Some x => x | None => g_scope g end)) None None (c_access_exp c) with
+             | Ok (s1, _) => (s1, OExc)
+             | _ => (s, OExc)
+             end
       else
         let base := if c_oidc c then fscope s gi g (t_based t) else fscope s gi g (Some tok) in
         let sc := match rsc with Some x => x | None => base end in
@@ -507,7 +574,8 @@ Definition do_process (c : cfg) (s : st) (idx : nat) (kw : option bool) : st * o
 Definition do_userinfo (c : cfg) (s : st) (r : tokref) : st * out :=
   match resolve_as c Access r s with
   | RTok id g t =>
-      if negb (tok_active (now s) t) then (s, OErr EInvalidToken)
+      if t_gone t then (s, OExc)                                  (* get_token -> None; `token.is_active()` raises *)
+      else if negb (tok_active (now s) t) then (s, OErr EInvalidToken)
       else if negb (now s <=? g_valid_until g) then (s, OExc)     (* `info` never bound *)
       else (s, OUserinfo)
   | _ => (s, OErr EInvalidToken)
@@ -516,7 +584,8 @@ Definition do_userinfo (c : cfg) (s : st) (r : tokref) : st * out :=
 Definition do_introspect (c : cfg) (s : st) (cl : pystr) (r : tokref) : st * out :=
   match resolve_any r s with
   | RTok id g t =>
-      if negb (str_eqb cl (g_client g)) then (s, OInactive)      (* audience restriction: resources = [client] *)
+      if t_gone t then (s, OExc)                                 (* get_token -> None; `_token.resources` raises, before the audience test *)
+      else if negb (str_eqb cl (g_client g)) then (s, OInactive) (* audience restriction: resources = [client] *)
       else match t_cls t with
            | Access | Refresh =>
                if tok_active (now s) t then
@@ -534,6 +603,7 @@ Definition do_revoke_ep (c : cfg) (s : st) (cl : pystr) (r : tokref) : st * out 
   match resolve_any r s with
   | RTok id g t =>
       if negb (str_eqb cl (g_client g)) then (s, OErr EInvalidGrant)
+      else if t_gone t then (s, OExc)                    (* get_token -> None; `_token.token_class` raises *)
       else match t_cls t with
            | IdTok => (s, OErr EOther)                   (* unsupported_token_type *)
            | _ => (upd_tok id revoke_t s, OOk)
@@ -542,6 +612,7 @@ Definition do_revoke_ep (c : cfg) (s : st) (cl : pystr) (r : tokref) : st * out 
   | _ => (s, OOk)
   end.
 
+(* SessionManager.revoke_token of a token its grant lists, default configuration *)
 Definition do_api_revoke (s : st) (id : nat) (recursive : bool) : st * out :=
   match find_tok id s with
   | None => (s, OSkip)
@@ -550,6 +621,18 @@ Definition do_api_revoke (s : st) (id : nat) (recursive : bool) : st * out :=
       else
       let s1 := upd_tok id revoke_t s in
       (if recursive then revoke_derived (t_grant t) id s1 else s1, OOk)
+  end.
+(* ... in general: a token that left its grant is not found (UnknownToken, nothing is touched); with
+   remove_inactive_token the recursive form is grant.revoke_token(value=...): the walk from the token, and whatever is
+   revoked in the grant leaves it *)
+Definition do_api_revoke_c (c : cfg) (s : st) (id : nat) (recursive : bool) : st * out :=
+  match find_tok id s with
+  | Some (g, t) =>
+      if negb (g_removed g) && t_gone t then (s, OExc)
+      else if negb (g_removed g) && recursive && c_remove_inactive c then
+        (sweep c (t_grant t) (walk_derived (t_grant t) id (upd_tok id revoke_t s)), OOk)
+      else do_api_revoke s id recursive
+  | None => do_api_revoke s id recursive
   end.
 
 Definition same_branch (g h : grant) : bool := str_eqb (g_user g) (g_user h) && str_eqb (g_client g) (g_client h).
@@ -579,22 +662,22 @@ Definition step (c : cfg) (s : st) (o : op) : st * out :=
   | Userinfo r => do_userinfo c s r
   | Introspect cl r => do_introspect c s cl r
   | RevokeEP cl r => do_revoke_ep c s cl r
-  | ApiRevoke id rec => do_api_revoke s id rec
+  | ApiRevoke id rec => do_api_revoke_c c s id rec
   | RevokeGrant gi => match nth_error (grants s) gi with
                       | Some g => if g_removed g then (s, OExc)          (* get_grant: KeyError *)
-                                  else (revoke_grant_at gi s, OOk)
+                                  else (sweep c gi (revoke_grant_at gi s), OOk)
                       | None => (s, OSkip) end
   | RevokeClient gi => match nth_error (grants s) gi with
                        | Some g =>
                            (* the session id names the path user/client/grant; the client node exists as long as
                               one grant below it does (also a grant of a later login, also when grant gi is gone) *)
-                           if existsb (live_branch g) (grants s) then (revoke_branch g s, OOk) else (s, OExc)
+                           if existsb (live_branch g) (grants s) then (sweep_p c (in_branch g s) (revoke_branch g s), OOk) else (s, OExc)
                        | None => (s, OSkip) end
   | RemoveGrant gi => match nth_error (grants s) gi with
                       | Some _ => (upd_grant gi remove_g s, OOk)         (* a second removal finds nothing and returns *)
                       | None => (s, OSkip) end
   | RevokeUser gi => match nth_error (grants s) gi with
-                     | Some g => if existsb (live_user g) (grants s) then (revoke_user g s, OOk) else (s, OExc)
+                     | Some g => if existsb (live_user g) (grants s) then (sweep_p c (in_user g s) (revoke_user g s), OOk) else (s, OExc)
                      | None => (s, OSkip) end
   | Tick d => (mkSt (now s + Z.max 0 d) (grants s) (toks s) (parsed s), OOk)
   | AuthorizeCookie prev u cl sc redir fresh => do_authorize_cookie c s prev u cl sc redir fresh
